@@ -191,6 +191,17 @@ CHECKS["C13"] = dict(
          "with strict >). Trusted: z3, CrossHair int model, the stub client/hasher table.",
     design="3 (C13)", technique=CH)
 
+CHECKS["C05"] = dict(
+    text="Bounded symbolic execution of operation histories: the real client against the wire-level memcached model, stepped "
+         "in lockstep with an independent API-level abstract map with expiry and cas versions. The first operation is the "
+         "shard; the next operation(s), keys, argument variant (expiry / delta / cas-token choice), noreply and the clock "
+         "advance between steps are symbolic indices. After every step the return value must equal the model's documented "
+         "result and the server content must equal the model content (effects under noreply). All shards exhaust.",
+    note="Bound: 2-operation histories (thorough 3) over 19 operations, 2 keys, candidate sets for expiry/advance/delta that "
+         "realise below/at/above orderings. Everything is concrete once the indices are chosen: the solver enumerates the "
+         "index space completely. Trusted: z3, vkit/model.py (specification), vkit/refserver.py, vkit/strict.py.",
+    design="3 (C05)", technique=CH)
+
 NOT_YET = {}
 
 NA_REASON_PENDING = "check not built yet in this session (planned; see DESIGN.md section 3)"
